@@ -24,10 +24,49 @@ import (
 const (
 	verifDir   = "/verif"
 	harnessDir = "/verif/harness"
-	buildDir   = "/verif/.build"
-	logDir     = "/verif/.build/logs"
-	partDir    = "/verif/.build/parts"
 )
+
+// With VERIF_REPO=<dir> the engines are built against that copy of
+// lni/dragonboat instead of /repo (used to try seeded changes in scratch
+// worktrees without touching /repo); binaries, logs, parts, evidence and
+// replays then go under /verif/.build/alt-<name>/ so that nothing registered
+// is disturbed.
+var (
+	altRepo     = os.Getenv("VERIF_REPO")
+	buildDir    = "/verif/.build"
+	logDir      = "/verif/.build/logs"
+	partDir     = "/verif/.build/parts"
+	evidenceDir = "/verif/evidence"
+	replayDir   = "/verif/replays"
+	modFile     = ""
+)
+
+func initDirs() {
+	if altRepo == "" || altRepo == "/repo" {
+		altRepo = ""
+		return
+	}
+	name := strings.Trim(keyRe.ReplaceAllString(altRepo, "_"), "_")
+	buildDir = filepath.Join("/verif/.build", "alt-"+name)
+	logDir = filepath.Join(buildDir, "logs")
+	partDir = filepath.Join(buildDir, "parts")
+	evidenceDir = filepath.Join(buildDir, "evidence")
+	replayDir = filepath.Join(buildDir, "replays")
+	_ = os.MkdirAll(buildDir, 0o755)
+	b, err := os.ReadFile(filepath.Join(harnessDir, "go.mod"))
+	if err != nil {
+		fmt.Fprintln(os.Stderr, err)
+		os.Exit(2)
+	}
+	mod := strings.Replace(string(b), "=> /repo", "=> "+altRepo, 1)
+	modFile = filepath.Join(buildDir, "go.mod")
+	_ = os.WriteFile(modFile, []byte(mod), 0o644)
+	if sb, err := os.ReadFile(filepath.Join(harnessDir, "go.sum")); err == nil {
+		_ = os.WriteFile(filepath.Join(buildDir, "go.sum"), sb, 0o644)
+	}
+}
+
+var keyRe = regexp.MustCompile(`[^A-Za-z0-9]+`)
 
 func env() []string {
 	e := os.Environ()
@@ -53,6 +92,9 @@ func build(engine string, race bool) error {
 		return nil
 	}
 	args := []string{"build", "-tags", "verif"}
+	if modFile != "" {
+		args = append(args, "-modfile="+modFile)
+	}
 	if race {
 		args = append(args, "-race")
 	}
@@ -123,7 +165,7 @@ func runStage(prop, tier string, seed int64, st Stage) []childResult {
 			}
 			args := []string{"-prop", prop, "-mode", st.Mode, "-tier", tier,
 				"-seed", strconv.FormatInt(seed, 10), "-batch", strconv.Itoa(b), "-nbatch", strconv.Itoa(nb),
-				"-out", partPath, "-replays", filepath.Join(verifDir, "replays"),
+				"-out", partPath, "-replays", replayDir,
 				"-known", filepath.Join(verifDir, "KNOWN_FINDINGS.jsonl")}
 			args = append(args, st.Args...)
 			// timeout -s QUIT so that a hung child leaves a goroutine dump
@@ -291,7 +333,7 @@ func check(prop, tier string) int {
 		}
 	}
 	start := time.Now()
-	for _, d := range []string{buildDir, logDir, partDir, filepath.Join(verifDir, "evidence"), filepath.Join(verifDir, "replays")} {
+	for _, d := range []string{buildDir, logDir, partDir, evidenceDir, replayDir} {
 		_ = os.MkdirAll(d, 0o755)
 	}
 	for _, st := range plan.Stages {
@@ -421,7 +463,7 @@ func check(prop, tier string) int {
 					if strings.Contains(txt, "verifh/") && strings.Contains(key, "harness") {
 						anyIncon = true
 					}
-					rp := filepath.Join(verifDir, "replays", fmt.Sprintf("%s-%s-crash-s%d-b%d.log", prop, st.Engine, seed, cr.batch))
+					rp := filepath.Join(replayDir, fmt.Sprintf("%s-%s-crash-s%d-b%d.log", prop, st.Engine, seed, cr.batch))
 					if b, err := os.ReadFile(cr.logPath); err == nil {
 						if len(b) > 400000 {
 							b = append(b[:200000], b[len(b)-200000:]...)
@@ -455,7 +497,7 @@ func check(prop, tier string) int {
 					}
 					ag.RaceAttr++
 					key := "race:" + raceKeyFrames(rr.frames, st.RaceAttr)
-					rp := filepath.Join(verifDir, "replays", fmt.Sprintf("%s-%s-%s-s%d-b%d.txt", prop, st.Engine, strings.ReplaceAll(rr.key, ":", "_"), seed, cr.batch))
+					rp := filepath.Join(replayDir, fmt.Sprintf("%s-%s-%s-s%d-b%d.txt", prop, st.Engine, strings.ReplaceAll(rr.key, ":", "_"), seed, cr.batch))
 					_ = os.WriteFile(rp, []byte("WARNING: DATA RACE"+rr.text), 0o644)
 					reportViolation(prop, key, "data race attributed to "+pat, rp)
 				}
@@ -504,7 +546,7 @@ func check(prop, tier string) int {
 		"violations":  nViol,
 	}
 	eb, _ := json.MarshalIndent(ev, "", " ")
-	evPath := filepath.Join(verifDir, "evidence", prop+".json")
+	evPath := filepath.Join(evidenceDir, prop+".json")
 	if err := os.WriteFile(evPath, eb, 0o644); err != nil {
 		fmt.Fprintln(os.Stderr, "cannot write evidence:", err)
 		return 2
@@ -630,6 +672,7 @@ func replay(path string) int {
 }
 
 func main() {
+	initDirs()
 	if len(os.Args) < 2 {
 		fmt.Fprintln(os.Stderr, "usage: vtool check <Cxx> <quick|thorough> | setup | replay <file> | list")
 		os.Exit(2)
